@@ -135,13 +135,14 @@ def make_random_system(seed, num_wann=2, nRvec=8, max_R=2, real_lattice=None, be
             if key == "AA":
                 X[s.rvec.iR0, s.range_wann, s.range_wann] = 0
             s.set_R_mat(key, X, Hermitian=True, reset=True)
+        s._XX_R = {key: s._XX_R[key] for key in sorted(s._XX_R)}      # dict order, too, must not depend on the hash seed
         if double_spin:
             s.double_spin()
             if random_spin:
                 # with sigma-pairs every degenerate-group spin trace is exactly zero: replace SS by a random
                 # Hermitian matrix so that the comparison is not vacuous
                 shape = s.get_R_mat("SS").shape
-                SS = np.random.random(shape) + 1j * np.random.random(shape)
+                SS = rs.random_sample(shape) + 1j * rs.random_sample(shape)
                 s.set_R_mat("SS", SS, Hermitian=True, reset=True)
     return s
 
